@@ -8,8 +8,9 @@ Space   : tree-exhaustive.  Every forest of the body alphabet with at most N nod
           no subcircuit inside a parallel block - also not through a macro).  Bodies may be empty.
 Oracle  : mc.ref.execute.accepts - the acceptance rule transcribed from the statement.  The
           implementation is observed where acceptance is decided: construction of the emulator
-          job for expand_macros(fill_in_let(expand_subcircuits(c))) (discovery runs, nothing is
-          walked), and - on the smaller trees - at run_jaqal_circuit under fuel, which must agree.
+          job (run_jaqal_circuit with a unitary backend whose job is built - discovery runs - but
+          not walked), and - on the smaller trees - at the plain run_jaqal_circuit under fuel,
+          which must agree.
           accepted <=> model accepts; len(subcircuits) = number of prepare/measure pairs;
           rejection must be a JaqalError (its wording is not judged).
 """
@@ -160,6 +161,26 @@ def _simpler(t):
         pass  # hoisting already removes the wrapper
 
 
+_BACKEND = []
+
+
+def _discovery_backend():
+    """The unitary emulator backend with a job that is built (discovery of the subcircuits and
+    their distributions) but not walked: execute() just reports the number of subcircuits."""
+    if not _BACKEND:
+        from jaqalpaq.emulator.unitary import UnitarySerializedEmulator
+
+        class DiscoveryOnly(UnitarySerializedEmulator):
+            def __call__(self, circ):
+                job = super().__call__(circ)
+                n = len(job.subcircuits)
+                job.execute = lambda: n
+                return job
+
+        _BACKEND.append(DiscoveryOnly)
+    return _BACKEND[0]()
+
+
 def _observe(fn, budget):
     """-> ('ok', n) | ('JaqalError', msg) | ('exception', type name, msg) | ('out-of-fuel',)"""
     try:
@@ -275,12 +296,8 @@ class C12(Check):
             return
 
         def seam():
-            from jaqalpaq.emulator.unitary import UnitarySerializedEmulator
-
-            job = UnitarySerializedEmulator()(
-                impl.expand_macros(impl.fill_in_let(impl.expand_subcircuits(circuit)))
-            )
-            return len(job.subcircuits)
+            # run_jaqal_circuit's own pass pipeline, with a backend whose job stops after discovery
+            return impl.run_jaqal_circuit(circuit, backend=_discovery_backend())
 
         ctx.trace()
         obs = _observe(seam, budget)
